@@ -74,7 +74,8 @@ LineOfEntry(log, idd, idk, store, e) ==
        [] r.op = 2 -> L("create-db", db, IF db \in DOMAIN store THEN TokenOf(store, db) ELSE "?", "")
        [] OTHER -> L("replicate-snapshot", db, "", "")
 
-(* an entry the code cannot turn into a line: the lookup of its database or key name panics *)
+(* an entry the code cannot turn into a line (its database or key is unknown to the node): it is   *)
+(* skipped (repaired: before, the lookup panicked and killed the supervisor loop)                 *)
 Undecodable(log, idd, idk, store, e) ==
   LET r == log[LastIdx(log, e)] IN
   \/ ~Known(idd, e[1])
@@ -82,11 +83,11 @@ Undecodable(log, idd, idk, store, e) ==
   \/ r.op \in {0, 2} /\ NameOf(idd, e[1]) \notin DOMAIN store
 
 IncrOK(log, idd, idk, store, since, lines) ==
-  LET ents == Entries(log)
+  LET ents == {e \in Entries(log) : ~Undecodable(log, idd, idk, store, e)}
       lineOf == [e \in ents |-> LineOfEntry(log, idd, idk, store, e)]
-  IN /\ \A e \in Required(log, since) : \E i \in DOMAIN lines : lines[i] = lineOf[e]     \* nothing missing
-     /\ \A i \in DOMAIN lines : \E e \in ents : lines[i] = lineOf[e]                      \* nothing invented
-     /\ \A i, j \in DOMAIN lines : i # j => lines[i] # lines[j]                           \* nothing twice
+  IN /\ \A e \in Required(log, since) \cap ents : \E i \in DOMAIN lines : lines[i] = lineOf[e]   \* nothing missing
+     /\ \A i \in DOMAIN lines : \E e \in ents : lines[i] = lineOf[e]                             \* nothing invented
+     /\ \A i, j \in DOMAIN lines : i # j => lines[i] # lines[j]                                  \* nothing twice
      \* in the order of the most recent records
      /\ \A i, j \in DOMAIN lines : i < j =>
           \E a, b \in ents : lines[i] = lineOf[a] /\ lines[j] = lineOf[b] /\ LastIdx(log, a) < LastIdx(log, b)
@@ -94,7 +95,4 @@ IncrOK(log, idd, idk, store, since, lines) ==
 CatchUpOK(log, idd, idk, store, since, lines) ==
   IF since = 0 THEN FullOK(store, lines) ELSE IncrOK(log, idd, idk, store, since, lines)
 
-(* the call ends in a panic of the supervisor loop instead of lines *)
-PanicExplained(log, idd, idk, store, since) ==
-  since > 0 /\ \E e \in Entries(log) : Undecodable(log, idd, idk, store, e)
 =============================================================================
